@@ -1703,5 +1703,16 @@ impl Drop for Arena {
   }
 }
 
+#[cfg(feature = "verif")]
+impl Arena {
+  /// Bounded raw walk over the free list (verification only, reports no events).
+  pub fn verif_freelist(&self, max: usize) -> crate::verif::FreelistSnapshot {
+    let sentinel = self.header().sentinel.raw();
+    crate::verif::walk_freelist(sentinel, self.cap, max, |off| {
+      self.get_segment_node(off).raw()
+    })
+  }
+}
+
 #[cfg(test)]
 mod tests;
